@@ -4,6 +4,7 @@
 //   ...FAILSTAT...  stat/lstat/fstatat/statx fail with EACCES;  ...VANISHED... with ENOENT
 //   ...FAILDIR...   opendir / open(O_DIRECTORY) fail with EACCES
 //   ...FAILLINK...  readlink fails with EIO
+//   ...NTHDIRENT... the directory opens, its fifth readdir fails with EIO
 #define _GNU_SOURCE
 #include <dirent.h>
 #include <dlfcn.h>
@@ -40,7 +41,22 @@ int openat64(int d, const char *p, int flags, ...) { REAL(openat64); mode_t m = 
     if (flags & (O_CREAT | O_TMPFILE)) { va_list ap; va_start(ap, flags); m = va_arg(ap, mode_t); va_end(ap); }
     if (open_fault(p, flags)) return -1; return real(d, p, flags, m); }
 
-DIR *opendir(const char *p) { REAL(opendir); if (has(p, "FAILDIR")) { errno = EACCES; return 0; } return real(p); }
+/* ...NTHDIRENT...: the directory can be opened, the third readdir on it fails with EIO (an n-th read of a directory fails) */
+#define MAXD 64
+static DIR *marked_dirs[MAXD];
+static int marked_reads[MAXD];
+static void mark_dir(DIR *d) { for (int i = 0; i < MAXD; i++) if (!marked_dirs[i]) { marked_dirs[i] = d; marked_reads[i] = 0; return; } }
+static int dir_slot(DIR *d) { for (int i = 0; i < MAXD; i++) if (marked_dirs[i] == d) return i; return -1; }
+
+DIR *opendir(const char *p) { REAL(opendir); if (has(p, "FAILDIR")) { errno = EACCES; return 0; }
+    DIR *d = real(p); if (d && has(p, "NTHDIRENT")) mark_dir(d); return d; }
+struct dirent64;
+struct dirent64 *readdir64(DIR *d) { static struct dirent64 *(*real)(DIR *); if (!real) real = dlsym(RTLD_NEXT, "readdir64");
+    int i = dir_slot(d); if (i >= 0 && ++marked_reads[i] > 4) { errno = EIO; return 0; } return real(d); }
+struct dirent *readdir(DIR *d) { static struct dirent *(*real)(DIR *); if (!real) real = dlsym(RTLD_NEXT, "readdir");
+    int i = dir_slot(d); if (i >= 0 && ++marked_reads[i] > 4) { errno = EIO; return 0; } return real(d); }
+int closedir(DIR *d) { static int (*real)(DIR *); if (!real) real = dlsym(RTLD_NEXT, "closedir");
+    int i = dir_slot(d); if (i >= 0) marked_dirs[i] = 0; return real(d); }
 
 static int fd_marked(int fd) {
     char link[64], buf[4096];
